@@ -6,8 +6,30 @@ W=/tmp/seedverify; T=/tmp/seedverify-target
 export CARGO_NET_OFFLINE=true CARGO_TARGET_DIR=$T
 if [ ! -d $W ]; then git -C /repo worktree add -q --detach $W HEAD || exit 2; fi
 cp /repo/Cargo.lock $W/ 2>/dev/null
+RERUN_ONLY=0; if [ "$1" = "--rerun-only" ]; then RERUN_ONLY=1; shift; fi
+# tests of the pinned suite that fail (other than the one that always fails offline) are load-sensitive
+# (performance gates, a racy debugger test): each is re-run alone, up to 3 times, with the change applied
+rerun_failed() {
+  grep -E "^\s+(FAIL|TIMEOUT)" $OUT | grep -v web_ide_shell_serves_local_hashed_assets | sed -E 's/^\s+(FAIL|TIMEOUT) \[[^]]*\] (\([^)]*\) )?//' | sort -u | while read bin name; do
+    [ -z "$name" ] && continue
+    ok=0
+    for k in 1 2 3; do
+      if (cd $W && timeout 900 cargo nextest run --workspace --tool-config-file pb:/w/lib/nextest.toml --profile pb --offline -E "test(=$name)" 2>&1 | grep -q "1 passed"); then ok=$k; break; fi
+    done
+    if [ $ok -gt 0 ]; then echo "   RERUN ALONE $name: passed (attempt $ok)" >> $OUT; else echo "   RERUN ALONE $name: STILL FAILS" >> $OUT; fi
+  done
+}
 for id in "$@"; do
-  D=/verif/seeded/$id; OUT=$D/verify.txt; : > $OUT
+  D=/verif/seeded/$id; OUT=$D/verify.txt
+  if [ $RERUN_ONLY = 1 ]; then
+    cd $W && git checkout -q --detach $(git -C /repo rev-parse HEAD) && git checkout -q -- . && git clean -fdq -e Cargo.lock
+    (cd $W && git apply $D/patch.diff) || { echo "PATCH DOES NOT APPLY" >> $OUT; continue; }
+    sed -i '/RERUN ALONE/d' $OUT
+    rerun_failed
+    cd $W && git checkout -q -- . && git clean -fdq -e Cargo.lock
+    continue
+  fi
+  : > $OUT
   cd $W && git checkout -q --detach $(git -C /repo rev-parse HEAD) && git checkout -q -- . && git clean -fdq -e Cargo.lock
   demo=$(ls $D/demo.rs 2>/dev/null)
   crate=trust-runtime
@@ -28,6 +50,7 @@ for id in "$@"; do
   echo "== demo WITH the change:" >> $OUT; run_demo >> $OUT 2>&1
   echo "== workspace suite WITH the change:" >> $OUT
   (cd $W && timeout 3000 cargo nextest run --workspace --no-fail-fast --tool-config-file pb:/w/lib/nextest.toml --profile pb --test-threads 8 --offline 2>&1 | grep -E "^\s+(FAIL|TIMEOUT|SIGABRT)|Summary|error:" | sort -u | head -12) >> $OUT 2>&1
+  rerun_failed
   cd $W && git checkout -q -- . && git clean -fdq -e Cargo.lock
   echo "== done $(date -u +%H:%M)" >> $OUT
 done
